@@ -163,6 +163,8 @@ class TreeConverter(ast.NodeVisitor):
   def visit_Call(self, node):
     args = [self.visit(v) for v in node.args]
     if node.keywords:
+      if any(v.arg is None for v in node.keywords):
+        raise SyntaxError("Can't use ** in a call at %s:%s" % (node.lineno, node.col_offset + 1))
       # E.g. foo(a, b=2, c=3) becomes [Call, foo, a, [keywords, [b, 2], [c, 3]]]
       args.append(['keywords'] + [[v.arg, self.visit(v.value)] for v in node.keywords])
     return ["Call", self.visit(node.func)] + args
